@@ -184,4 +184,206 @@ theorem restore_colTotal {s s' : St} {n workers tsteps : Nat} {occ : List (List 
   rw [h1, h2]
   exact List.Perm.sum_eq (M := Rat) ((hp.trans htab.symm).map _)
 
+/-! ### the restored state is a start state again -/
+
+theorem filterMap_map_length {α β : Type} (l : List (Option α)) (f : α → β)
+    (h : ∀ o ∈ l, ∃ a, o = some a) : (l.filterMap (fun o => o.map f)).length = l.length := by
+  induction l with
+  | nil => rfl
+  | cons o t ih =>
+    obtain ⟨a, rfl⟩ := h o List.mem_cons_self
+    simp only [List.filterMap_cons, Option.map_some, List.length_cons]
+    rw [ih (fun o ho => h o (List.mem_cons_of_mem _ ho))]
+
+theorem livePaths_all_some {s : St} {H : List (Nat × Nat)} {tn : Nat} (hc : Core s H tn) :
+    ∀ o ∈ livePaths s, ∃ pn, o = some pn := by
+  intro o ho
+  unfold livePaths at ho
+  obtain ⟨e, he⟩ := List.getElem?_of_mem ho
+  rw [List.getElem?_dropLast] at he
+  split at he
+  · rename_i hlt
+    rw [hc.lenT] at hlt
+    obtain ⟨pn, hpn, _⟩ := hc.live e hlt
+    rw [hpn] at he
+    exact ⟨pn, by simpa using he.symm⟩
+  · exact absurd he (by simp)
+
+/-- **A quiescent state restored from its image is a start state again**: C03's `Init` (so all
+    scheduler invariants restart) and the table invariant. -/
+theorem restore_init {y1 : Sys} {s2 : St} {workers tsteps : Nat} {occ : List (List Int)}
+    {ensEng : List (List Nat)} {weightOf : Nat → List Rat} (hi : HInv y1) (r : RInv y1)
+    (hlk : y1.s.locked = [])
+    (h : restore (persist y1.s) y1.s.n workers tsteps occ ensEng weightOf = .ok s2) :
+    Init ⟨s2, []⟩ ∧ FracWF s2 := by
+  have hc := hi.inv.core
+  obtain ⟨hk, hv, _, hn, ht⟩ := restore_frac h
+  have hsub : ∀ pn, some pn ∈ livePaths y1.s → some pn ∈ y1.s.trajs :=
+    fun pn hm => (List.dropLast_sublist _).subset hm
+  have hlnd : ((livePaths y1.s).filterMap id).Nodup :=
+    r.liveNodup.sublist ((List.dropLast_sublist _).filterMap id)
+  have hbound : ∀ pn, some pn ∈ livePaths y1.s → pn < y1.s.trajNum :=
+    fun pn hm => hi.fw.bound pn (r.liveFrac pn (hsub pn hm))
+  constructor
+  · rw [restore_eq] at h
+    have hl0 : (persist y1.s).locked = [] := by simp [persist, hlk]
+    rw [hl0] at h
+    refine init_of_loadPaths y1.s.n workers tsteps y1.s.cstep y1.s.trajNum y1.s.seed occ ensEng true
+      (imgPaths y1.s y1.s.n weightOf) s2 hc.n2 ?_ ?_ ?_ h
+    · unfold imgPaths
+      rw [filterMap_map_length _ _ (livePaths_all_some hc)]
+      simp [livePaths, hc.lenT]
+    · rw [imgPaths_keys]; exact hlnd
+    · intro p hp
+      have : p.1 ∈ (imgPaths y1.s y1.s.n weightOf).map (·.1) := List.mem_map_of_mem hp
+      rw [imgPaths_keys] at this
+      exact hbound p.1 (mem_fm.mp this)
+  · constructor
+    · exact hk.nodup_iff.mpr hlnd
+    · intro kv hkv
+      rw [hv kv hkv, hn]
+      cases hl : y1.s.frac.lookup kv.1 with
+      | none => simp
+      | some v => exact hi.fw.flen _ (lookup_mem hl)
+    · intro k hkm
+      rw [ht]
+      exact hbound k (mem_fm.mp (hk.mem_iff.mp hkm))
+
+theorem jinv_of_init {y : Sys} (h : Init y) : JInv y := by
+  constructor
+  · rw [h.jobs]; simp
+  · intro _; rw [h.jobs, h.toinit]; simp
+
+/-! ### every fresh `load_paths` gives a `RowInit` state -/
+
+/-- writing a fresh number into any slot keeps the slot numbers distinct -/
+theorem set_fresh_nodup' (l : List (Option Nat)) (e t : Nat) (hnd : (l.filterMap id).Nodup)
+    (hf : some t ∉ l) : ((l.set e (some t)).filterMap id).Nodup := by
+  rcases Nat.lt_or_ge e l.length with he | he
+  · generalize hv : l[e] = v
+    have hv' : l[e]? = some v := by rw [List.getElem?_eq_getElem he, hv]
+    obtain ⟨A, B, rfl, rfl⟩ := split_at l e v hv'
+    rw [set_mid, fm_mid]
+    have hsub : (A.filterMap id ++ B.filterMap id).Nodup := by
+      refine hnd.sublist ?_
+      rw [List.filterMap_append]
+      exact List.Sublist.append (List.Sublist.refl _) ((List.sublist_cons_self _ _).filterMap id)
+    rw [List.perm_middle.nodup_iff, List.nodup_cons]
+    refine ⟨?_, hsub⟩
+    rw [List.mem_append, mem_fm, mem_fm]
+    intro hm
+    apply hf
+    rcases hm with hm | hm
+    · exact List.mem_append_left _ hm
+    · exact List.mem_append_right _ (List.mem_cons_of_mem _ hm)
+  · rw [List.set_eq_of_length_le he]; exact hnd
+
+/-- the two slot clauses of `RowInit` -/
+def LiveOK (s : St) : Prop :=
+  (∀ pn, some pn ∈ s.trajs → pn ∈ s.frac.map Prod.fst) ∧ (s.trajs.filterMap id).Nodup
+
+theorem loadOne_live {s s' : St} {ens : Int} {pn : Nat} {valid fr : List Rat} (hL : LiveOK s)
+    (hnew : pn ∉ s.frac.map Prod.fst) (h : loadOne s ens pn valid fr = .ok s') : LiveOK s' := by
+  obtain ⟨hf, _⟩ := loadOne_data h
+  obtain ⟨_, _, _, htr, _⟩ := loadOne_ok h
+  have hfresh : some pn ∉ s.trajs := fun hm => hnew (hL.1 pn hm)
+  constructor
+  · intro q hq
+    rw [htr] at hq
+    rw [hf, List.map_append, List.mem_append]
+    rcases List.mem_or_eq_of_mem_set hq with hq | hq
+    · exact Or.inl (hL.1 q hq)
+    · right; simp only [Option.some.injEq] at hq; simp [hq]
+  · rw [htr]
+    exact set_fresh_nodup' _ _ _ hL.2 hfresh
+
+theorem plus_live : ∀ (l : List (Nat × List Rat × List Rat)) (s s' : St) (i : Nat), LiveOK s →
+    (s.frac.map Prod.fst ++ l.map (·.1)).Nodup → loadPaths.plus s i l = .ok s' → LiveOK s' := by
+  intro l
+  induction l with
+  | nil =>
+    intro s s' i hL _ h
+    simp only [loadPaths.plus, Except.ok.injEq] at h
+    subst h; exact hL
+  | cons p rest ih =>
+    intro s s' i hL hnd h
+    obtain ⟨pn, w, fr⟩ := p
+    unfold loadPaths.plus at h
+    split at h
+    · exact absurd h (by simp)
+    rename_i s1 h1
+    have hnew : pn ∉ s.frac.map Prod.fst := by
+      intro hm
+      rw [List.nodup_append] at hnd
+      exact hnd.2.2 pn hm pn (by simp) rfl
+    obtain ⟨hf1, _⟩ := loadOne_data h1
+    refine ih s1 s' (i + 1) (loadOne_live hL hnew h1) ?_ h
+    rw [hf1]
+    simpa [List.append_assoc] using hnd
+
+/-- **Every fresh start is a `RowInit` state**: `load_paths` on `n − 1` initial paths with pairwise
+    distinct numbers below `trajNum` and all-zero fraction vectors of length `n`, into a blank state
+    of `n ≥ 2` slots without restart jobs. -/
+theorem rowInit_of_loadPaths (n workers tsteps cstep trajNum seed : Nat) (occ : List (List Int))
+    (ensEng : List (List Nat)) (restarted : Bool) (paths : List (Nat × List Rat × List Rat)) (s : St)
+    (hn : 2 ≤ n) (hlen : paths.length = n - 1) (hnd : (paths.map (·.1)).Nodup)
+    (hlt : ∀ p ∈ paths, p.1 < trajNum) (hz : ∀ p ∈ paths, p.2.2 = List.replicate n 0)
+    (h : loadPaths (blank n workers tsteps cstep trajNum seed occ ensEng restarted []) paths = .ok s) :
+    RowInit ⟨s, []⟩ := by
+  have hinit := init_of_loadPaths n workers tsteps cstep trajNum seed occ ensEng restarted paths s
+    hn hlen hnd hlt h
+  obtain ⟨hd, tl, hp, hf, hr, hn', ht⟩ := loadPaths_data h
+  have hf' : s.frac = (tl ++ [hd]).map (fun p => (p.1, p.2.2)) := by rw [hf]; rfl
+  have hperm : (tl ++ [hd]).Perm paths := by rw [hp]; exact List.perm_append_comm
+  have hkeys : s.frac.map Prod.fst = (tl ++ [hd]).map (·.1) := by
+    rw [hf', List.map_map]; rfl
+  have hL : LiveOK s := by
+    have h0 : LiveOK (blank n workers tsteps cstep trajNum seed occ ensEng restarted []) := by
+      constructor
+      · intro pn hm
+        simp [blank] at hm
+      · have : (List.replicate n (none : Option Nat)).filterMap id = [] := by
+          rw [List.filterMap_eq_nil_iff]
+          intro a ha
+          rw [(List.mem_replicate.mp ha).2]; rfl
+        show ((List.replicate n (none : Option Nat)).filterMap id).Nodup
+        rw [this]; exact List.nodup_nil
+    unfold loadPaths at h
+    split at h
+    · exact absurd h (by simp)
+    rename_i pn0 w0 fr0 rest
+    split at h
+    · exact absurd h (by simp)
+    rename_i s1 hplus
+    simp only [List.map_cons, List.nodup_cons] at hnd
+    have h1 := plus_live rest _ s1 0 h0 (by simpa [blank] using hnd.2) hplus
+    obtain ⟨hf1, _⟩ := plus_data rest _ s1 0 hplus
+    refine loadOne_live h1 ?_ h
+    rw [hf1]
+    simpa [blank, List.map_map, Function.comp_def] using hnd.1
+  refine ⟨⟨hinit, ⟨?_, ?_, ?_⟩, ?_, hr⟩, hL.1, hL.2⟩
+  · show (s.frac.map Prod.fst).Nodup
+    rw [hkeys]; exact (hperm.map _).nodup_iff.mpr hnd
+  · intro kv hkv
+    rw [hf'] at hkv
+    simp only [List.mem_map] at hkv
+    obtain ⟨p, hpm, rfl⟩ := hkv
+    show p.2.2.length = s.n
+    rw [hz p (hperm.subset hpm), hn']
+    simp [blank]
+  · intro k hk
+    show k < s.trajNum
+    rw [hkeys] at hk
+    simp only [List.mem_map] at hk
+    obtain ⟨p, hpm, rfl⟩ := hk
+    rw [ht]
+    exact hlt p (hperm.subset hpm)
+  · intro kv hkv x hx
+    rw [hf'] at hkv
+    simp only [List.mem_map] at hkv
+    obtain ⟨p, hpm, rfl⟩ := hkv
+    simp only at hx
+    rw [hz p (hperm.subset hpm)] at hx
+    exact (List.mem_replicate.mp hx).2
+
 end Infretis.Repex.Frac
